@@ -832,7 +832,11 @@ func (idx *Index) readDiskBucket(indexOffset types.Position, fileNum uint32) (Re
 	if _, err = file.ReadAt(sizeBuf, int64(indexOffset-4)); err != nil {
 		return nil, err
 	}
-	data := make([]byte, binary.LittleEndian.Uint32(sizeBuf))
+	size := binary.LittleEndian.Uint32(sizeBuf)
+	if size&deletedBit != 0 {
+		return nil, fmt.Errorf("index record at offset %d in file %d is deleted", indexOffset, fileNum)
+	}
+	data := make([]byte, size)
 	if _, err = file.ReadAt(data, int64(indexOffset)); err != nil {
 		return nil, err
 	}
@@ -847,23 +851,36 @@ func (idx *Index) Get(key []byte) (types.Block, bool, error) {
 		return types.Block{}, false, err
 	}
 
-	// Here we just need an RLock since there will not be changes over buckets.
-	// So, do not use getRecordsFromBucket and instead only wrap this line of
-	// code in the RLock.
-	idx.bucketLk.RLock()
-	cached, indexOffset, fileNum, err := idx.readBucketInfo(bucket)
-	idx.bucketLk.RUnlock()
-	if err != nil {
-		return types.Block{}, false, fmt.Errorf("error reading bucket: %w", err)
-	}
 	var records RecordList
-	if cached != nil {
-		records = NewRecordListRaw(cached)
-	} else {
-		records, err = idx.readDiskBucket(indexOffset, fileNum)
+	for {
+		// Here we just need an RLock since there will not be changes over
+		// buckets. So, do not use getRecordsFromBucket and instead only wrap
+		// this line of code in the RLock.
+		idx.bucketLk.RLock()
+		cached, indexOffset, fileNum, err := idx.readBucketInfo(bucket)
+		idx.bucketLk.RUnlock()
 		if err != nil {
-			return types.Block{}, false, fmt.Errorf("error reading index records from disk: %w", err)
+			return types.Block{}, false, fmt.Errorf("error reading bucket: %w", err)
 		}
+		if cached != nil {
+			records = NewRecordListRaw(cached)
+			break
+		}
+		records, err = idx.readDiskBucket(indexOffset, fileNum)
+		if err == nil {
+			break
+		}
+		// The bucket lock is not held while reading from disk. A flush may
+		// have superseded the record list, and GC may then have deleted it,
+		// after the bucket was read. If the bucket has changed, read again
+		// using its new value.
+		idx.bucketLk.RLock()
+		curCached, curOffset, curFileNum, curErr := idx.readBucketInfo(bucket)
+		idx.bucketLk.RUnlock()
+		if curErr == nil && (curCached != nil || curOffset != indexOffset || curFileNum != fileNum) {
+			continue
+		}
+		return types.Block{}, false, fmt.Errorf("error reading index records from disk: %w", err)
 	}
 	if records == nil {
 		return types.Block{}, false, nil
